@@ -112,8 +112,22 @@ IS_GLOBAL6 = z3.Function('ip6_is_global', z3.BitVecSort(128), z3.BoolSort())
 
 
 def m_is_global(it, a, ty, callee):
+    """ip_network::IpNetwork::is_global: exact for the address ranges the harnesses use, an uninterpreted predicate
+    elsewhere (a counterexample resting on it would not replay natively and is then reported as inconclusive)"""
     ip = deref(it, a[0])
+    if isinstance(ip, Adt) and ip.ty == 'std::net::IpAddr':
+        ip = ip.fields[0]
     if isinstance(ip, Int):
+        if ip.conc:
+            v = ip.v
+            if ip.w == 32:
+                if (v >> 24) in (10, 127, 0):
+                    return False
+                if (v >> 8) == ((8 << 16) | (8 << 8) | 8):
+                    return True
+            else:
+                if v in (0, 1) or (v >> 96) == 0x20010db8:
+                    return False
         return (IS_GLOBAL4 if ip.w == 32 else IS_GLOBAL6)(ip.z())
     raise Inconclusive('is_global on %r' % (ip,))
 
@@ -216,10 +230,48 @@ def m_ipv4_new(it, a, ty, callee):
     return Int(z3.Concat(*[x.z() for x in a]), 32)
 
 
+def m_ipv6_new(it, a, ty, callee):
+    if all(x.conc for x in a):
+        v = 0
+        for x in a:
+            v = (v << 16) | x.v
+        return Int(v, 128)
+    return Int(z3.Concat(*[x.z() for x in a]), 128)
+
+
+def _ip_of(it, v):
+    v = deref(it, v)
+    if isinstance(v, Adt) and v.ty == 'std::net::IpAddr':
+        v = v.fields[0]
+    return v
+
+
+def m_ip_is_unspecified(it, a, ty, callee):
+    ip = _ip_of(it, a[0])
+    return it.veq(ip, Int(0, ip.w))
+
+
+def m_ip_is_loopback(it, a, ty, callee):
+    ip = _ip_of(it, a[0])
+    if ip.w == 32:
+        top = Int(ip.v >> 24, 8) if ip.conc else Int(z3.Extract(31, 24, ip.z()), 8)
+        return it.veq(top, Int(127, 8))
+    return it.veq(ip, Int(1, 128))
+
+
+def m_maddr_from_iter(it, a, ty, callee):
+    from .seq import drain, as_lazy
+    return Maddr(drain(it, as_lazy(a[0])))
+
+
 def install(it):
     load_protocol_enum(it.adts)
+    it.add_model(r'std::net::Ipv6Addr::new', m_ipv6_new)
+    it.add_model(r'std::net::(Ipv4Addr|Ipv6Addr|IpAddr)::is_unspecified', m_ip_is_unspecified)
+    it.add_model(r'std::net::(Ipv4Addr|Ipv6Addr|IpAddr)::is_loopback', m_ip_is_loopback)
+    it.add_model(r'<.* as std::iter::Iterator>::collect::<multiaddr::Multiaddr>', m_maddr_from_iter)
+    it.add_model(r'<multiaddr::Multiaddr as std::iter::FromIterator<.*>>::from_iter::<.*>', m_maddr_from_iter)
     it.add_model(r'std::net::Ipv4Addr::new', m_ipv4_new)
-    it.add_model(r'<u64 as std::convert::From<multihash_codetable::Code>>::from', m_code_to_u64)
     it.add_model(r'multihash::Multihash::<64>::code', m_mh_code)
     it.add_model(r'multihash::Multihash::<64>::digest', m_mh_digest)
     it.add_model(r'multihash::Multihash::<64>::size', m_mh_size)
@@ -239,4 +291,4 @@ def install(it):
     A(r'<multiaddr::PeerId as std::convert::TryFrom<multihash::Multihash<64>>>::try_from', m_peerid_try_from)
     A(r'<multihash::Multihash<64> as std::cmp::PartialEq<multiaddr::PeerId>>::(eq|ne)', m_peerid_eq)
     A(r'<multiaddr::PeerId as std::cmp::PartialEq(<.*>)?>::(eq|ne)', m_peerid_eq)
-    A(r'<peer_id::PeerId as std::convert::AsRef<multihash::Multihash<64>>>::as_ref', lambda it, a, ty, c: Ptr(a[0].cell, a[0].path + (0,)))
+    A(r'<(peer_id|multiaddr)::PeerId as std::convert::AsRef<multihash::Multihash<64>>>::as_ref', lambda it, a, ty, c: Ptr(a[0].cell, a[0].path + (0,)))
